@@ -339,6 +339,6 @@ def run(ctx):
     ctx.extra["reader_paths"] = nr
     gdt_rules(ctx)
     ctx.floor("C11.gdt", 6)
-    ctx.floor("C11.schema", 150, "typed positions")
-    ctx.floor("C11.range", 12, "computed integers")
+    ctx.floor("C11.schema", 325, "typed positions")
+    ctx.floor("C11.range", 120, "computed integers")
     ctx.floor("C11.unit", 8)
